@@ -10,22 +10,22 @@ _PROVED = {
  "C05": "Proved (Props/C05.v): hasPathPrefix is component-wise containment (C05_has_path_prefix_iff); every name prefixPath accepts maps to a path at or below the prefix (C05_prefix_path_within); every call the PrefixFS transformer forwards names only paths within the prefix, both names of Rename included (C05_calls_confined); an accepted Symlink target resolves lexically within the prefix (C05_symlink_target_within). Lexical: what the kernel does with symlinks already in the tree is outside (C16/K-findings). ",
  "C06": "Proved (Props/C06.v): isHidden decides exactly 'at or below a hidden path', component-wise (C06_is_hidden_spec); every single-name method, Rename and Symlink on every spelling of such a name is rejected with the documented error before any underlying call (C06_lexical_*). 'By any route' (through symlinks in the tree) is the recorded finding D9. ",
  "C07": "Proved (Props/C07.v, arbitrary filesystems): a Rollback with nothing tracked issues no call and changes nothing; whenever Rollback runs to its end nothing is tracked; BackupFS has no state besides baseInfos (struct fields from the AST). 'Backup filesystem as before' is decided by the oracle and, for covered histories, by the C01 theorems (backup empty after Rollback). ",
- "C09": "Proved (Props/C09.v, arbitrary filesystems): every error of Rollback is ErrRollbackFailed; restoreFile/restoreSymlink propagate failures. Props/C09_faults.v (over the laws + fault laws, single-fault plans): Rollback returns nil only if the base view is restored and the backup empty. Multi-fault plans and operations outside 'covered': fault enumeration. ",
+ "C09": "Proved (Props/C09.v, arbitrary filesystems): every error of Rollback is ErrRollbackFailed; restoreFile/restoreSymlink propagate failures. Props/C09_faults.v (over the laws + fault laws, closed for the three layerings): for EVERY fault plan Rollback returns nil only if the base view is restored, the backup empty and nothing tracked; under a single-fault plan histories of covered operations keep the invariant and Rollback returns nil once the fault is spent. Histories outside 'covered': fault enumeration. ",
  "C10": "Proved (Props/C10.v): the lock table regenerated from the Go AST satisfies the lock discipline (kernel-evaluated), each exported method either locks first with a deferred unlock or touches neither baseInfos nor a mutating method (C10_classification), and under that discipline every interleaving of any number of threads is a serial execution of the locked operations (C10_serialisable). Data races at the Go memory-model level: race detector only (partial). Writes through returned handles lie outside the lock by design (K7). ",
  "C11": "Proved (Props/C11.v): for every directory content, hidden set and sequence of Readdir/Readdirnames counts the listing returns exactly the visible entries, each once, no error (C11_listing, C11_visible_spec); renaming an ancestor of a hidden path is refused lexically. HiddenFS.RemoveAll effect theorem (C11_removeall_effect, concrete OS model, any hidden set, symlinks in the subtree allowed): hidden entries untouched, lexical ancestor directories of hidden paths kept with mode/owner, everything else in the subtree gone, nothing outside changed; names reached through symlinks are outside (D9). ",
- "C12": "Proved (Props/C12.v): every FileInfo accessor survives toFInfo/JSON (C12_reload_info), Map() after a reload equals Map() before (C12_reload_spec), a restart at any point of a history changes nothing observable under names_ok (C12_restart_identity). JSON encoding itself is modelled, validated by the round-trip stream. ",
+ "C12": "Proved (Props/C12.v): every FileInfo accessor survives toFInfo/JSON (C12_reload_info), Map() after a reload equals Map() before (C12_reload_spec), a restart at any point of a history changes nothing observable under names_ok (C12_restart_identity). encoding/json itself is not modelled (reload_info abstracts it away); it is exercised by the implementation-only round-trip stream. ",
  "C14": "Proved (Props/C14.v): for absolute prefixes prefixPath is Join(prefix, Clean('/'+name)); every forwarded call has exactly the re-rooted arguments; File.Name/FileInfo.Name report the virtual name; Readlink trims the prefix from targets inside it and Symlink-then-Readlink returns the cleaned target. ",
  "C15": "Proved (Props/C15.v): every method on a lexically non-hidden comparable name is forwarded as exactly one call with unchanged arguments (Create/Open as OpenFile with their flags), siblings sharing a string prefix are not hidden, an empty hidden set is the identity. Effects on real trees: twin runs; listings of directories without hidden entries batch by batch. ",
  "C18": "Proved (Props/C18.v): on Linux (empty volume) every VolumeFS call is forwarded with Clean'ed arguments, identity on cleaned names, idempotent, Readlink cleans the target. The Windows half (drive letters) is not executable here and is not claimed beyond the model of the string functions. ",
  "C19": "Proved (Props/C19.v): the depth order is a strict total order refining 'ancestor before descendant' (C19_less_*), both sorts return the unique sorted permutation whatever the input order (C19_perm_independent_*), IterateDirTree visits exactly the ancestor chain root-first and stops where told (C19_iterate, C19_iterate_stop, C19_chain_spec). ",
- "C01": "Proved (Props/C01.v, no axioms): for any two filesystems satisfying the laws of Spec/Laws.v, Spec/Laws2.v w.r.t. abstract views, any history of covered operations (every operation of the API except ForceBackup, on resolved names, not following a final symlink, Rename of a childless source, RemoveAll not of the root, no type change) followed by Rollback returns nil, restores the base view (root metadata and directory timestamps aside) and empties backup and bookkeeping (C01_rollback_restores_partial); Rollback from any state satisfying the invariant (C01_rollback_from_invariant). The unrestricted statement is refuted in the model (C01_full_refuted_D14 = recorded finding). The laws are proved for the concrete PrefixFS-over-OS model with two disjoint prefixes (Proofs/LawsOsfs*.v): C01_concrete_partial is a closed theorem about cfg_base/cfg_backup of the layering 'generic p q' that the correspondence check runs against the code; also closed for the documented layering 'HiddenFS hiding the backup location inside a PrefixFS base' (C01_documented_partial, Proofs/LawsHidden*.v; api_laws generalised by the predicates hid/anc); and for the layering of the constructors New/NewWithFS, HiddenFS directly over the OS filesystem (C01_new_partial, Proofs/LawsRoot*.v, LawsNew*.v): the theorems are closed for the layerings of all five configurations the correspondence check runs. ",
- "C03": "Proved (Props/C03.v, for arbitrary filesystems, every world): Lstat/Stat/Readlink/Open/OpenFile(O_RDONLY) through BackupFS are exactly one call of the base, invoke nothing on the backup (trap_api) and no mutating base method, leave baseInfos alone. Mutating operations (Proofs/Transparent.v; 39 statements in Props/C03.v; closed for the generic and the documented layering): after a successful resolution and backup step the operation is the base's own operation on the resolved name; for covered operations the backup step leaves the base view untouched and the operation equals the direct one on a base showing the same view, or fails with the backup's error leaving the base view unchanged; it changes the base view at most at the named entry (C03_affects_only_named); RemoveAll of an absent path returns nil. Names with symlinked parents, D14/D12/K6 and error classes: twin oracle. ",
- "C04": "Proved (Props/C04.v, 28 theorems, HiddenFS over ANY filesystem): every method on every spelling of a name lexically at/below the location is rejected with the world unchanged; listings never reveal it; no BackupFS operation invokes any method of the underlying or the backup filesystem on a hidden name (C04_universal_seal); operations whose resolved name is at/below it do not succeed and mutate nothing underneath; the location is never backed up into itself. Lexical on the resolved name (D9/D17 recorded). Rollback keeps working for everything outside the location, histories that RemoveAll or Rename a parent of it included: C04_rollback_documented_partial and C04_rollback_new_partial (closed theorems for the HiddenFS-inside-PrefixFS layering and for New/NewWithFS) + examples + oracle. ",
- "C08": "Proved (Props/C08.v, 21 theorems, for arbitrary filesystems and every world incl. faults/crash points): taking a backup never invokes a mutating base method; if the backup of any mutating operation fails the operation returns that failure in exactly the world the failed backup left (fail-stop), Rename for each of its two backups, RemoveAll per entry. Props/C08_faults.v (over the laws + fault laws, closed for the concrete generic layering): under every single-fault plan every covered operation keeps the transaction invariant, and a fault on the backup filesystem during a backup-taking operation yields an error with the base view unchanged; afterwards Rollback restores (C09_faults). Multi-fault plans: enumeration (two faults can break the clean-up of a partial copy: the boundary the proof identified). ",
+ "C01": "Proved (Props/C01.v, no axioms): for any two filesystems satisfying the laws of Spec/Laws.v, Spec/Laws2.v w.r.t. abstract views, any history of covered operations (every operation of the API except ForceBackup, on resolved names, not following a final symlink, Rename of a childless source, RemoveAll not of the root, no type change of a tracked path; initial tree: files below the model's 128 MiB copy budget, symlink targets clean and acceptable to both filesystems, backup initially empty) followed by Rollback returns nil, restores the base view (root metadata and directory timestamps aside) and empties backup and bookkeeping (C01_rollback_restores_partial); Rollback from any state satisfying the invariant (C01_rollback_from_invariant). The unrestricted statement is refuted in the model (C01_full_refuted_D14 = recorded finding). The laws are proved for the concrete PrefixFS-over-OS model with two disjoint prefixes (Proofs/LawsOsfs*.v): C01_concrete_partial is a closed theorem about cfg_base/cfg_backup of the layering 'generic p q' that the correspondence check runs against the code; also closed for the documented layering 'HiddenFS hiding the backup location inside a PrefixFS base' (C01_documented_partial, Proofs/LawsHidden*.v; api_laws generalised by the predicates hid/anc); and for the layering of the constructors New/NewWithFS, HiddenFS directly over the OS filesystem (C01_new_partial, Proofs/LawsRoot*.v, LawsNew*.v): the theorems are closed for the layerings of all five configurations the correspondence check runs. ",
+ "C03": "Proved (Props/C03.v, for arbitrary filesystems, every world): Lstat/Stat/Readlink/Open/OpenFile(O_RDONLY) through BackupFS are exactly one call of the base, invoke nothing on the backup (trap_api) and no mutating base method, leave baseInfos alone. Mutating operations (Proofs/Transparent.v; 41 statements in Props/C03.v; closed for the generic, the documented and the New/NewWithFS layering): after a successful resolution and backup step the operation is the base's own operation on the resolved name; for covered operations the backup step leaves the base view untouched and the operation equals the direct one on a base showing the same view, or fails with the backup's error leaving the base view unchanged; it changes the base view at most at the named entry (C03_affects_only_named); RemoveAll of an absent path returns nil. Names with symlinked parents, D14/D12/K6 and error classes: twin oracle. ",
+ "C04": "Proved (Props/C04.v, 21 theorems and 11 examples, HiddenFS over ANY filesystem): every method on every spelling of a name lexically at/below the location is rejected with the world unchanged; listings never reveal it; no BackupFS operation invokes any method of the underlying or the backup filesystem on a hidden name (C04_universal_seal); operations whose resolved name is at/below it do not succeed and mutate nothing underneath; the location is never backed up into itself. Lexical on the resolved name (D9/D17 recorded). Rollback keeps working for everything outside the location, histories that RemoveAll or Rename a parent of it included: C04_rollback_documented_partial and C04_rollback_new_partial (closed theorems for the HiddenFS-inside-PrefixFS layering and for New/NewWithFS) + examples + oracle. ",
+ "C08": "Proved (Props/C08.v, 21 theorems, for arbitrary filesystems and every world incl. faults/crash points): taking a backup never invokes a mutating base method; if the backup of any mutating operation fails the operation returns that failure in exactly the world the failed backup left (fail-stop), Rename for each of its two backups, RemoveAll per entry. Props/C08_faults.v (over the laws + fault laws, closed for the three layerings): under every single-fault plan every covered operation keeps the transaction invariant, and a fault on the backup filesystem during a backup-taking operation yields an error with the base view unchanged; afterwards Rollback restores (C09_faults). Multi-fault plans: enumeration (two faults can break the clean-up of a partial copy: the boundary the proof identified). ",
  "C13": "Proved (Props/C13.v, arbitrary filesystems): every call Rollback makes on either filesystem is on a path tracked when it started (guard_api), on the backup only Lstat/Open/Readlink/Remove. What base.RemoveAll/MkdirAll do inside the method is covered by the oracle (foreign entries survive). ",
  "C16": "Proved (Props/C16.v, 37 theorems, concrete model of resolvePathWithInfo over the modelled kernel walk): termination and read-onlyness for every world and name; no fuel exhaustion for any topology within a size bound; under the exclusion of the recorded deviations (D17, K2 - boolean triggers): no symlink among the parents of the result, same entry as the caller's name under the kernel walk (unless the kernel answers ELOOP = recorded finding K8), final component unresolved, missing tail lexical. Relative names (working directory = root) proved as well (C16_relative_*). ",
  "C17": "Proved (Props/C17.v, over the laws): ForceBackup of a resolved non-directory path re-establishes the invariant for the baseline rebased at p, whether it succeeds or fails; after any covered history Rollback returns nil, p is as at the ForceBackup moment, every other path as originally (C17_rollback_after_force_backup). The two side conditions the proof forced were real defects, D21 and D22, both repaired in the code; the side conditions entry_ok, orig_not_dir_cond and parents_original remain hypotheses of every C17 theorem, the concrete instances included (the laws say nothing about creating below a missing directory). ",
- "C02": "Proved (Props/C02.v): between operations of any covered history every original is intact in the base view or copied at the same backup path and the backup holds nothing else (C02_between_operations_partial); tryBackup never changes the base view. AT EVERY INSTANT (Props/C02_instant.v): with the model's own crash points (the state at instant k = the world in which a run with crash point k halts), every instant of tryBackup, of every covered operation, of every covered history and of Rollback is recoverable: originals intact or exactly copied, the backup holds nothing but copies with at most the one entry being written incomplete; closed for the concrete generic layering (C02_instant_concrete, C02_instant_rollback_concrete). Fault plans and operations outside 'covered' are decided by enumeration. ",
+ "C02": "Proved (Props/C02.v): between operations of any covered history every original is intact in the base view or copied at the same backup path and the backup holds nothing else (C02_between_operations_partial); tryBackup never changes the base view. AT EVERY INSTANT (Props/C02_instant.v): with the model's own crash points (the state at instant k = the world in which a run with crash point k halts), every instant of tryBackup, of every covered operation, of every covered history and of Rollback is recoverable: originals intact or exactly copied, the backup holds nothing but copies with at most the one entry being written incomplete; closed for the three layerings (C02_instant_concrete/_documented/_new and the _rollback_ variants). Fault plans and operations outside 'covered' are decided by enumeration. ",
 }
 _P0 = _PROVED
 
@@ -59,14 +59,13 @@ _BFS = {
 for _pid, _title in _BFS.items():
     CLAIMED[_pid] = ("Coq model of BackupFS over a POSIX filesystem model (theorems in Props/%s.v) + differential correspondence on real trees in a chroot (results, trees, primitive-call traces) + implementation oracle" % _pid,
         "Theorems in Coq about the executable Gallina model of BackupFS and its layers over a modelled Linux filesystem (state+error+halt monad ticking once per primitive call); the model is tied to the Go code on every run by running generated histories (with crash points / injected faults where the property quantifies over them) through the real code in a private chroot and through the extracted model, comparing results, whole-tree dumps, tracked state" + (" and (L2) the exact sequence of primitive calls" if _pid in ("C01", "C02", "C08", "C09", "C13") else " (L1)") + "; the property's own oracle is evaluated on the implementation for every case, failing cases are minimised and attributed to recorded findings only by trigger predicates (Gallina booleans evaluated by the model; harness-level predicates for K1, K5, K7). " + _title + ".",
-        _PROVED.get(_pid, "") + "Trusted: Coq kernel, extraction (ExtrOcamlBasic), OCaml driver, Go harness (chroot world builder, spy/fault/crash wrappers), python orchestrator (generators, oracles, shrinker). Modelled, validated by correspondence only: Linux VFS as root (errno classes, symlink walk, chown clearing setuid/setgid), os.MkdirAll/RemoveAll/Rename, path/filepath, io.Copy chunking. Where the full statement is false of the faithful model the proved theorem is named _partial and the recorded findings (known_findings.json) are its excluded triggers.",
+        _PROVED.get(_pid, "") + "Trusted: Coq kernel, extraction (ExtrOcamlBasic), OCaml driver, Go harness (chroot world builder, spy/fault/crash wrappers), python orchestrator (generators, oracles, shrinker). Modelled, validated by correspondence only: Linux VFS as root (errno classes, symlink walk, chown clearing setuid/setgid), os.MkdirAll/RemoveAll/Rename, path/filepath, io.Copy chunking. Where the full statement is false of the faithful model the proved theorem is named _partial; its side conditions (covered, kind_stable, the initial-tree conditions) contain the triggers of the recorded findings (known_findings.json) and are in places wider (e.g. kind_stable also excludes type changes involving a symlink, which the code handles since fix D23).",
         "DESIGN.md section 4 (%s)" % _pid)
 CLAIMED["C10"] = ("Coq proof (mutual exclusion => serialisability) + lock table regenerated from the Go AST on every run (kernel re-evaluates lock_discipline) + blocking-spy schedule exploration + race detector",
     "The serialisability theorem is proved once for every interleaving of any number of threads; that the Go methods follow the lock discipline is re-checked on every run on a table regenerated from the source (go/parser); dynamically, operation A is held at each of its primitive calls while B is issued (B must not progress), results are compared with the model's serial run, and a -race stress searches for data races (partial: a model cannot exhibit the Go memory model).",
     _PROVED["C10"] + "Trusted: Coq kernel, srcfacts (AST walker), Go harness, sync.Mutex, the race detector's coverage. The data-race half is labelled partial.",
     "DESIGN.md section 4 (C10)")
 
-WIP = {}
 
 def main():
     props = [json.loads(l) for l in open(os.path.join(HERE, "properties.jsonl"))]
@@ -88,7 +87,7 @@ def main():
                 "technique": tech,
             })
         else:
-            na.append({"property_id": pid, "reason": WIP.get(pid, "check not built yet (work in progress; planned as Coq proof + correspondence, see DESIGN.md section 4)")})
+            na.append({"property_id": pid, "reason": "not claimed"})
     m = {
         "version": 1,
         "setup_cmd": "./check setup",
